@@ -30,7 +30,7 @@ StepJ(s) == << s.op,
                IF s.ad THEN 1 ELSE 0, IF s.dx THEN 1 ELSE 0 >>
 
 Done == Len(hist) = MaxLen
-Replay == Done => PrintT(<<"REPLAY", ToJson([rx |-> req["X"], ry |-> req["Y"],
+Replay == Done => PrintT(<<"REPLAY", ToJson([rx |-> req["X"], ry |-> req["Y"], rep |-> rep,
                                               h |-> [i \in 1..Len(hist) |-> StepJ(hist[i])]])>>)
 NoReplay == TRUE
 =============================================================================
